@@ -50,7 +50,7 @@ for name, m in missed:
     out.append("| %s | %s | %s |" % (name, "yes" if m.get("check_detects") else "NO", esc(m.get("detected_after_strengthening", "–"))))
 tot = len(glob.glob(os.path.join(ROOT, "seeded", "*", "meta.json")))
 det = sum(1 for f in glob.glob(os.path.join(ROOT, "seeded", "*", "meta.json")) if json.load(open(f)).get("check_detects"))
-out.append("\n%d seeded changes in total (three rounds of independent breaker agents: one change per property, a second different-in-nature change per property, and a third for the 17 properties whose checks had shown the most blind spots); %d detected, %d of them only after the check was strengthened.\n" % (tot, det, len(missed)))
+out.append("\n%d seeded changes in total (three rounds of independent breaker agents: one change per property, a second different-in-nature change per property, and a third change per property, again different in site and mechanism from the first two — written first for the 17 properties whose checks had shown the most blind spots, then for the other 27); %d detected, %d of them only after the check was strengthened.\n" % (tot, det, len(missed)))
 txt = "\n".join(out) + "\n"
 p = os.path.join(ROOT, "DESIGN.md")
 s = open(p).read()
